@@ -19,7 +19,12 @@ Import ListNotations.
      7  enumeration of the *.csv files of a workbook folder into a dict that is looked up BY NAME; its order
         reaches one result only: the order of the members of the `sheets` object of convert_to_json (a JSON
         object, i.e. an unordered map; the tie compares it as such between two enumerations)
-     8  uuid4(): the one sanctioned source of values that are not a function of the input ([s_next] in the model)
+     8  uuid4(): the one sanctioned source of values that are not a function of the input ([s_next] in the model).
+        It is sanctioned WHEREVER the call sits ([sanctioned] below: kind entropy:uuid.uuid4, exposure value), so that
+        wrapping it in a helper or moving it does not alarm; the code must still draw from it somewhere (an identifier
+        source that stops calling uuid4() — random.getrandbits, a counter, a clock — fails the check twice: the new source
+        is an unreviewed entry and no sanctioned one is left).  That one uuid4() value is not handed out twice is the
+        business of the history oracle (invented-uuid-reused), not of this table.
    A new `list(set(..))`, a loop over a set, a `sorted(.., key=id)`, an os.listdir .. in the code changes
    the regenerated list, and [order_sources_okb] (vm_compute) stops checking until the entry is reviewed here. *)
 Definition covered_order_exposures : list (str * str * str * nat) := [
@@ -42,15 +47,18 @@ Definition covered_order_exposures : list (str * str * str * nat) := [
   (* rpft.rapidpro.models.containers:FlowContainer.to_row_data_sheet set escape *)
   ([114; 112; 102; 116; 46; 114; 97; 112; 105; 100; 112; 114; 111; 46; 109; 111; 100; 101; 108; 115; 46; 99; 111; 110; 116; 97; 105; 110; 101; 114; 115; 58; 70; 108; 111; 119; 67; 111; 110; 116; 97; 105; 110; 101; 114; 46; 116; 111; 95; 114; 111; 119; 95; 100; 97; 116; 97; 95; 115; 104; 101; 101; 116]%N, [115; 101; 116]%N, [101; 115; 99; 97; 112; 101]%N, 5);
   (* rpft.rapidpro.models.routers:RouterCase set escape *)
-  ([114; 112; 102; 116; 46; 114; 97; 112; 105; 100; 112; 114; 111; 46; 109; 111; 100; 101; 108; 115; 46; 114; 111; 117; 116; 101; 114; 115; 58; 82; 111; 117; 116; 101; 114; 67; 97; 115; 101]%N, [115; 101; 116]%N, [101; 115; 99; 97; 112; 101]%N, 6);
-  (* rpft.rapidpro.utils:generate_new_uuid entropy:uuid.uuid4 value *)
-  ([114; 112; 102; 116; 46; 114; 97; 112; 105; 100; 112; 114; 111; 46; 117; 116; 105; 108; 115; 58; 103; 101; 110; 101; 114; 97; 116; 101; 95; 110; 101; 119; 95; 117; 117; 105; 100]%N, [101; 110; 116; 114; 111; 112; 121; 58; 117; 117; 105; 100; 46; 117; 117; 105; 100; 52]%N, [118; 97; 108; 117; 101]%N, 8)
+  ([114; 112; 102; 116; 46; 114; 97; 112; 105; 100; 112; 114; 111; 46; 109; 111; 100; 101; 108; 115; 46; 114; 111; 117; 116; 101; 114; 115; 58; 82; 111; 117; 116; 101; 114; 67; 97; 115; 101]%N, [115; 101; 116]%N, [101; 115; 99; 97; 112; 101]%N, 6)
 ].
 
 Definition s_member : str := [109; 101; 109; 98; 101; 114]%N.
 Definition order_exposed (e : str * str * str) : bool := negb (str_eqb (snd e) s_member).
+Definition s_uuid4 : str := [101; 110; 116; 114; 111; 112; 121; 58; 117; 117; 105; 100; 46; 117; 117; 105; 100; 52]%N.   (* entropy:uuid.uuid4 *)
+Definition s_value : str := [118; 97; 108; 117; 101]%N.                                                                 (* value *)
+Definition sanctioned (e : str * str * str) : bool := str_eqb (snd (fst e)) s_uuid4 && str_eqb (snd e) s_value.
+Definition order_reviewable (e : str * str * str) : bool := order_exposed e && negb (sanctioned e).
 Definition order_sources_okb : bool :=
-  list_eqb triple_eqb (filter order_exposed c13_order_sources) (map fst covered_order_exposures).
+  list_eqb triple_eqb (filter order_reviewable c13_order_sources) (map fst covered_order_exposures)
+  && existsb sanctioned c13_order_sources.
 
 (* ------------------------------------------------------------------ why `member` uses are harmless
    A Python set iterates in an order the input does not determine: all the code can rely on is that the
